@@ -175,19 +175,27 @@ theorem pinv_fresh (ty : DType) (S : List (Entry D)) (pid : String)
     rintro ⟨s, hs, _, hf, hp⟩
     exact absurd hp (h s hs (by rw [hf]; decide))
 
-/-- the pool an entry is applied to: the registered one or a fresh one (`get_pool_by_id`, not strict) -/
-theorem base_pool (ty : DType) (Q : List (Pool D)) (S : List (Entry D)) (pid : String) (hinv : QInv ty Q S) :
-    let p := (getPool Q pid).getD (mkPool ty pid none none [])
-    p.pid = pid ∧ p.ty = ty ∧ PInv S p := by
+/-- the pool an entry is applied to: the registered one or a fresh one (`get_pool_by_id`, not strict); a fresh one
+cannot carry the reserved name -/
+theorem base_pool (ty : DType) (Q : List (Pool D)) (S : List (Entry D)) (pid : String) (hinv : QInv ty Q S)
+    (hres : pid ≠ Gen.DelegConsts.singlePoolName) :
+    ∃ p, poolFor ty Q pid = .ok p ∧ p.pid = pid ∧ p.ty = ty ∧ PInv S p := by
   cases hg : getPool Q pid with
   | some q =>
     obtain ⟨hq, hpid⟩ := getPool_some hg
-    exact ⟨hpid, (hinv.pool q hq).2.2, (hinv.pool q hq).1⟩
+    exact ⟨q, by simp [poolFor, hg], hpid, (hinv.pool q hq).2.2, (hinv.pool q hq).1⟩
   | none =>
-    refine ⟨rfl, rfl, pinv_fresh ty S pid ?_⟩
+    refine ⟨mkPool ty pid none none [], by simp [poolFor, hg, newPool, hres], rfl, rfl, pinv_fresh ty S pid ?_⟩
     intro s hs hf hp
     obtain ⟨q, hq, hqp⟩ := hinv.present s hs hf pid hp
     exact getPool_none hg q hq hqp
+
+/-- the reserved name never enters the registry through `incorporate_delegation` -/
+theorem poolFor_reserved (ty : DType) (Q : List (Pool D)) (h : ∀ q ∈ Q, q.pid ≠ Gen.DelegConsts.singlePoolName) :
+    poolFor ty Q Gen.DelegConsts.singlePoolName = .error .pool := by
+  cases hg : getPool Q Gen.DelegConsts.singlePoolName with
+  | some q => exact absurd (getPool_some hg).2 (h q (getPool_some hg).1)
+  | none => simp [poolFor, hg, newPool]
 
 /-- re-establish the invariant after the pool `p'` (same id as the entry's pool) has been stored -/
 theorem qinv_put (ty : DType) (Q : List (Pool D)) (S : List (Entry D)) (e : Entry D) (p' : Pool D)
@@ -213,10 +221,11 @@ theorem qinv_put (ty : DType) (Q : List (Pool D)) (S : List (Entry D)) (e : Entr
 /-- one iteration of `incorporate_delegation` keeps the invariant -/
 theorem inc_step (ty : DType) (Q : List (Pool D)) (S : List (Entry D)) (e : Entry D) (hinv : QInv ty Q S)
     (hpool : e.2.fmt ≠ .single → e.2.pool ≠ none) (hdet : e.2.fmt = .definition → e.2.details ≠ none)
+    (hres : e.2.fmt ≠ .single → e.2.pool ≠ some Gen.DelegConsts.singlePoolName)
     (huniq : ∀ s ∈ S, s.2.fmt = .definition → e.2.fmt = .definition → s.2.pool ≠ e.2.pool) :
     ∃ Q', incOne ty e.1 Q e.2 = .ok Q' ∧ QInv ty Q' (S ++ [e]) := by
   obtain ⟨node, d⟩ := e
-  simp only at hpool hdet huniq ⊢
+  simp only at hpool hdet hres huniq ⊢
   cases hf : d.fmt with
   | single =>
     refine ⟨Q, by simp [incOne, hf], hinv.distinct, ?_, ?_⟩
@@ -235,30 +244,31 @@ theorem inc_step (ty : DType) (Q : List (Pool D)) (S : List (Entry D)) (e : Entr
       cases hx : d.details with
       | none => exact absurd hx (hdet hf)
       | some x =>
-        obtain ⟨hbpid, hbty, hbinv⟩ := base_pool ty Q S pid hinv
-        have hu : ∀ s ∈ S, s.2.fmt = .definition → s.2.pool ≠ some ((getPool Q pid).getD (mkPool ty pid none none [])).pid := by
+        have hpr : pid ≠ Gen.DelegConsts.singlePoolName := fun h => hres (by rw [hf]; decide) (by rw [hp, h])
+        obtain ⟨bp, hbok, hbpid, hbty, hbinv⟩ := base_pool ty Q S pid hinv hpr
+        have hu : ∀ s ∈ S, s.2.fmt = .definition → s.2.pool ≠ some bp.pid := by
           intro s hs hsf; rw [hbpid, ← hp]; exact huniq s hs hsf hf
         have hon := (hbinv.noDef hu).1
-        refine ⟨putPool { (getPool Q pid).getD (mkPool ty pid none none []) with
-            on_ := some node, details := some x, deleg := some d.id } Q, ?_, ?_⟩
-        · simp [incOne, hf, hp, hx, hon]
+        refine ⟨putPool { bp with on_ := some node, details := some x, deleg := some d.id } Q, ?_, ?_⟩
+        · simp [incOne, hf, hp, hx, hon, hbok, bind, Except.bind]
         · exact qinv_put ty Q S (node, d) _ hinv (by simp [hf]) (by simp [hp, hbpid]) hbty
             (pinv_def S _ (node, d) x hbinv hf (by simp [hp, hbpid]) hx hu) rfl
   | reference =>
     cases hp : d.pool with
     | none => exact absurd hp (hpool (by rw [hf]; decide))
     | some pid =>
-      obtain ⟨hbpid, hbty, hbinv⟩ := base_pool ty Q S pid hinv
-      refine ⟨putPool { (getPool Q pid).getD (mkPool ty pid none none []) with
-          for_ := addSet ((getPool Q pid).getD (mkPool ty pid none none [])).for_ node, deleg := some d.id } Q, ?_, ?_⟩
-      · simp [incOne, hf, hp]
+      have hpr : pid ≠ Gen.DelegConsts.singlePoolName := fun h => hres (by rw [hf]; decide) (by rw [hp, h])
+      obtain ⟨bp, hbok, hbpid, hbty, hbinv⟩ := base_pool ty Q S pid hinv hpr
+      refine ⟨putPool { bp with for_ := addSet bp.for_ node, deleg := some d.id } Q, ?_, ?_⟩
+      · simp [incOne, hf, hp, hbok, bind, Except.bind]
       · exact qinv_put ty Q S (node, d) _ hinv (by simp [hf]) (by simp [hp, hbpid]) hbty
           (pinv_ref S _ (node, d) hbinv hf (by simp [hp, hbpid])) rfl
 
-/-- entries that can be incorporated without an exception: a pool name on every definition / reference,
-details on every definition, at most one definition per pool -/
+/-- entries that can be incorporated without an exception: a pool name (not the reserved one) on every definition /
+reference, details on every definition, at most one definition per pool -/
 structure Incorporable (L : List (Entry D)) : Prop where
   hasPool : ∀ e ∈ L, e.2.fmt ≠ .single → e.2.pool ≠ none
+  notReserved : ∀ e ∈ L, e.2.fmt ≠ .single → e.2.pool ≠ some Gen.DelegConsts.singlePoolName
   hasDetails : ∀ e ∈ L, e.2.fmt = .definition → e.2.details ≠ none
   oneDef : L.Pairwise (fun a b => a.2.fmt = .definition → b.2.fmt = .definition → a.2.pool ≠ b.2.pool)
 
@@ -269,7 +279,7 @@ theorem inc_fold (ty : DType) (L : List (Entry D)) (S : List (Entry D)) (Q : Lis
   | nil => exact ⟨Q, rfl, by simpa using hinv⟩
   | cons e L ih =>
     have hmem : e ∈ S ++ e :: L := by simp
-    obtain ⟨Q1, h1, hinv1⟩ := inc_step ty Q S e hinv (hL.hasPool e hmem) (hL.hasDetails e hmem)
+    obtain ⟨Q1, h1, hinv1⟩ := inc_step ty Q S e hinv (hL.hasPool e hmem) (hL.hasDetails e hmem) (hL.notReserved e hmem)
       (fun s hs => (List.pairwise_append.mp hL.oneDef).2.2 s hs e (by simp))
     have hL' : Incorporable ((S ++ [e]) ++ L) := by simpa [List.append_assoc] using hL
     obtain ⟨Q2, h2, hinv2⟩ := ih (S ++ [e]) Q1 hinv1 hL'
